@@ -90,7 +90,7 @@ PATT_BROKEN_STRING = re.compile(r"""
     (?:"                               # opening double quote
         (?: [^"\\\n\r\u2028\u2029]     # not ", \, line terminators; allow
             | \\(\n|\r(?!\n)|\u2028|\u2029|\r\n)  # line continuation
-            | \\[a-tvwyzA-TVWYZ!-\/:-@\[-`{-~] # escaped chars
+            | \\[^0-9xu\n\r\u2028\u2029]   # escaped chars
             | \\x[0-9a-fA-F]{2}        # hex_escape_sequence
             | \\u[0-9a-fA-F]{4}        # unicode_escape_sequence
             | \\(?:[1-7][0-7]{0,2}|[0-7]{2,3})  # octal_escape_sequence
@@ -102,7 +102,7 @@ PATT_BROKEN_STRING = re.compile(r"""
     (?:'                               # opening single quote
         (?: [^'\\\n\r\u2028\u2029]     # not ', \, line terminators; allow
             | \\(\n|\r(?!\n)|\u2028|\u2029|\r\n)  # line continuation
-            | \\[a-tvwyzA-TVWYZ!-\/:-@\[-`{-~] # escaped chars
+            | \\[^0-9xu\n\r\u2028\u2029]   # escaped chars
             | \\x[0-9a-fA-F]{2}        # hex_escape_sequence
             | \\u[0-9a-fA-F]{4}        # unicode_escape_sequence
             | \\(?:[1-7][0-7]{0,2}|[0-7]{2,3}) # octal_escape_sequence
@@ -630,7 +630,7 @@ class Lexer(object):
         (?:"                               # opening double quote
             (?: [^"\\\n\r\u2028\u2029]     # not ", \, line terminators; allow
                 | \\(\n|\r(?!\n)|\u2028|\u2029|\r\n)  # line continuation
-                | \\[a-tvwyzA-TVWYZ!-\/:-@\[-`{-~] # escaped chars
+                | \\[^0-9xu\n\r\u2028\u2029]   # escaped chars
                 | \\x[0-9a-fA-F]{2}        # hex_escape_sequence
                 | \\u[0-9a-fA-F]{4}        # unicode_escape_sequence
                 | \\(?:[1-7][0-7]{0,2}|[0-7]{2,3})  # octal_escape_sequence
@@ -642,7 +642,7 @@ class Lexer(object):
         (?:'                               # opening single quote
             (?: [^'\\\n\r\u2028\u2029]     # not ', \, line terminators; allow
                 | \\(\n|\r(?!\n)|\u2028|\u2029|\r\n)  # line continuation
-                | \\[a-tvwyzA-TVWYZ!-\/:-@\[-`{-~] # escaped chars
+                | \\[^0-9xu\n\r\u2028\u2029]   # escaped chars
                 | \\x[0-9a-fA-F]{2}        # hex_escape_sequence
                 | \\u[0-9a-fA-F]{4}        # unicode_escape_sequence
                 | \\(?:[1-7][0-7]{0,2}|[0-7]{2,3}) # octal_escape_sequence
